@@ -1,0 +1,26 @@
+//go:build verif
+
+package climit
+
+// Contracts checked by /verif (lsvc). This file contains comments only and is
+// compiled only with the build tag "verif".
+//
+// Ghost: ghost_held = number of tokens acquired and not yet released.
+
+// The released flag of a Token is private to this package: only Release
+// changes it.
+//@ stable Token.released
+
+//@ func (cl *ConcurrencyLimit) Acquire
+//@   trusted
+//@   modifies ghost_held
+//@   ensures fresh_token: r0 != nil && freshObj(r0) && !r0.released
+//@   ensures held: ghost_held == old(ghost_held) + 1
+
+// Release is idempotent: the second call returns the token to nobody.
+//@ func (t *Token) Release
+//@   trusted
+//@   modifies t.released, ghost_held
+//@   ensures released: t.released
+//@   ensures held: ghost_held == old(ghost_held) - ite(old(t.released), 0, 1)
+//@   ensures idempotent: old(t.released) ==> r0 == 0
